@@ -473,6 +473,7 @@ impl Prop for C10 {
             lit: if case.kind.is_aiger() { 3 } else { case.lit },
             flag: false,
             whole: false,
+            early: 0,
         };
         let ctor = Ctor::Reader {
             via: Via::FromRead,
